@@ -32,6 +32,7 @@ func main() {
 	out := fs.String("out", "", "result file")
 	stride := fs.Int("stride", 1, "conformance: every n-th case")
 	par := fs.Int("par", 8, "conformance: concurrent real sessions")
+	in := fs.String("in", "", "conformance: file written by conform-model")
 	fs.Parse(os.Args[3:])
 	switch cmd {
 	case "list":
@@ -68,50 +69,35 @@ func main() {
 			fmt.Println()
 		}
 	case "conform-model":
-		// enumerate the wire cases of the property's check, run this shard's share under vrt
-		type rec struct {
-			props.ConformCase
-			Model props.StimTranscript `json:"model"`
-		}
-		var recs []rec
-		for k, cc := range props.ConformCases(arg, *tier, *stride) {
-			if k%*of != *shard {
-				continue
-			}
-			recs = append(recs, rec{cc, props.ModelTranscript(cc.Case)})
-		}
+		// enumerate the cases of a conformance family, run this shard's share under vrt
+		recs := props.ConformModel(arg, *tier, *stride, *shard, *of)
 		b, _ := json.Marshal(recs)
 		if err := os.WriteFile(*out, b, 0o644); err != nil {
 			fmt.Fprintln(os.Stderr, "ENGINE-ERROR", err)
 			os.Exit(3)
 		}
 	case "conform-real":
-		// arg is a file written by conform-model; run every case on the real runtime over loopback TCP
-		b, err := os.ReadFile(arg)
+		// -in is a file written by conform-model; run every case on the real runtime and compare
+		b, err := os.ReadFile(*in)
 		if err != nil {
 			fmt.Fprintln(os.Stderr, "ENGINE-ERROR", err)
 			os.Exit(3)
 		}
-		var cases []props.ConformCase
-		if err := json.Unmarshal(b, &cases); err != nil {
+		var recs []props.ConformRecord
+		if err := json.Unmarshal(b, &recs); err != nil {
 			fmt.Fprintln(os.Stderr, "ENGINE-ERROR", err)
 			os.Exit(3)
 		}
-		type rec struct {
-			Index int                  `json:"index"`
-			Real  props.StimTranscript `json:"real"`
-		}
-		recs := make([]rec, len(cases))
 		sem := make(chan struct{}, *par)
 		var wg sync.WaitGroup
-		for i, cc := range cases {
+		for i := range recs {
 			wg.Add(1)
 			sem <- struct{}{}
-			go func(i int, cc props.ConformCase) {
+			go func(i int) {
 				defer wg.Done()
-				recs[i] = rec{cc.Index, props.RealTranscript(cc.Case)}
+				props.ConformReal(arg, &recs[i])
 				<-sem
-			}(i, cc)
+			}(i)
 		}
 		wg.Wait()
 		ob, _ := json.Marshal(recs)
